@@ -75,7 +75,8 @@ struct Run
   const Case* c = nullptr;
   ThreadPool* pool = nullptr;
   bool destroyed = false;
-  long seq = 0;
+  long seq = 0;    // number of harness yields so far
+  long tick = 0;   // total order of the recorded facts (everything is serialised under DetSched)
   int nextId = 0;
   long nAcc = 0, nD = 0, nS = 0, nF = 0, nStart = 0, nDone = 0;
   std::vector<Sub> subs;
@@ -141,9 +142,10 @@ template <typename F> void vp(const char* tag, F&& pre)
 }
 void vp(const char* tag, int n) { vp(tag, [n] { return n; }); }
 
+// IORA_VERIF_POINT(tag) inside the pool (fixes/HOOK-thread-pool.patch): an extra scheduling point + snapshot
 void hookPoint(const char* tag)
 {
-  if (!ds::active() || ds::self() < 0 || !R) return;
+  if (!ds::active() || ds::self() < 0 || !R || !R->c->hook) return;
   vp(tag, 0);
 }
 
@@ -189,14 +191,14 @@ void doCall(const Act& a)
     if (res == '?') res = (why == '0') ? '!' : why;
   }
   if (res == 'a') R->nAcc++; else if (res == 'd') R->nD++; else if (res == 's') R->nS++; else if (res == 'f') R->nF++;
-  R->subs.push_back(Sub{id, a.mode, res, why, ds::self(), R->seq});
+  R->subs.push_back(Sub{id, a.mode, res, why, ds::self(), R->tick++});
 }
 
 void runBody(int id, int bodyIx)
 {
   grow(id);
   R->startCnt[static_cast<std::size_t>(id)]++;
-  R->startSeq[static_cast<std::size_t>(id)] = R->seq;
+  R->startSeq[static_cast<std::size_t>(id)] = R->tick++;
   R->startTid[static_cast<std::size_t>(id)] = ds::self();
   R->nStart++;
   if (R->destroyed) R->problems += " start-after-destroy:" + std::to_string(id);
@@ -204,7 +206,7 @@ void runBody(int id, int bodyIx)
   vp("b", id);
   for (const Act& a : b.acts) doCall(a);
   R->doneCnt[static_cast<std::size_t>(id)]++;
-  R->doneSeq[static_cast<std::size_t>(id)] = R->seq;
+  R->doneSeq[static_cast<std::size_t>(id)] = R->tick++;
   R->nDone++;
   R->outcome[static_cast<std::size_t>(id)] = b.throws ? 'x' : 'v';
   if (b.throws) throw TaskError(id);
@@ -215,7 +217,7 @@ void subMain(std::vector<Act> script)
   for (const Act& a : script) doCall(a);
 }
 
-void mlog(int code) { R->mlog.push_back(code); R->mlogSeq.push_back(R->seq); }
+void mlog(int code) { R->mlog.push_back(code); R->mlogSeq.push_back(R->tick++); }
 
 void mainProgram(long idleMs)
 {
@@ -349,7 +351,9 @@ void runCase(const Case& c, const std::vector<std::string>& t)
     else if (e.kind == ds::REACQ)
     {
       const ds::Event* n1 = nextOf(i, 0);
-      alt = (e.detail == 0 && n1 && n1->kind != ds::WAIT) ? 1 : 0;
+      // late = the wait reported a time-out (DetSched: woken by TIMEOUT, or the virtual clock passed the deadline); the
+      // look-ahead (not waiting again although the predicate may be false) covers a libstdc++ that decides differently
+      alt = (e.detail == 1 || (n1 && n1->kind != ds::WAIT)) ? 1 : 0;
     }
     else if (e.kind == ds::LOCK && oc[i] == 'm')
     {
@@ -460,6 +464,12 @@ void runCase(const Case& c, const std::vector<std::string>& t)
 int main()
 {
   iora::core::Logger::setLevel(iora::core::Logger::Level::Fatal);
+#ifdef IORA_VERIF_POINT
+  iora::verif::pointHook() = &hookPoint;
+  std::puts("hook present");
+#else
+  std::puts("hook absent");
+#endif
   Case* cur = new Case();
   std::string line;
   while (std::getline(std::cin, line))
